@@ -1784,6 +1784,33 @@ fn fam_repr(rng: &mut Rng, n: usize, out: &mut Out) {
             let (off, mn, mx) = (rng.range(-100, 100) as f64 / 10.0, -(1.0 + rng.below(1000) as f64 / 10.0), 1.0 + rng.below(1000) as f64 / 10.0);
             let bs = if rng.chance(1, 2) { 1.0 } else { 0.25 + rng.below(4) as f64 * 0.25 };
             let ys = 1.0 + rng.below(1000) as f64;
+            if i % 5 == 0 {
+                // the all-binary32 representation `BiquadRepr<f32, C>` (what an f32 firmware holds), C = f32 or i32
+                let (p32, f32_, g32, s32, v32) = (period as f32, freq as f32, gdb as f32, sdb as f32, svv as f32);
+                let shape32 = match sk { 0 => Shape::Q(v32), 1 => Shape::Bandwidth(v32), _ => Shape::Slope(v32) };
+                let (o32, mn32, mx32, bs32, ys32) = (off as f32, mn as f32, mx as f32, bs as f32, ys as f32);
+                let mut fr = FilterRepr::<f32>::default();
+                set_leaf(&mut fr, "/typ", typs[ti]);
+                set_leaf(&mut fr, "/frequency", f32_);
+                set_leaf(&mut fr, "/gain", g32);
+                set_leaf(&mut fr, "/shelf", s32);
+                set_leaf(&mut fr, "/shape", shape32);
+                set_leaf(&mut fr, "/offset", o32);
+                set_leaf(&mut fr, "/min", mn32);
+                set_leaf(&mut fr, "/max", mx32);
+                let args = format!("{} {} {} {} {} {} {} {} {} {} {} {}", ti, sk, v32.to_bits(), f32_.to_bits(), g32.to_bits(), s32.to_bits(), o32.to_bits(), mn32.to_bits(), mx32.to_bits(), p32.to_bits(), bs32.to_bits(), ys32.to_bits());
+                if f0 >= 1e-2 {
+                    if i % 2 == 0 {
+                        let b: Biquad<f32> = BiquadRepr::<f32, f32>::Filter(fr).build::<f32>(p32, bs32, ys32);
+                        if b.ba().iter().all(|v| v.is_finite()) {
+                            out.emit(&format!("f_filterrepr32 0 0 {}", args), Some(format!("{} {} {} {}", list(&b.ba().map(|v| v.to_bits())), b.u().to_bits(), b.min().to_bits(), b.max().to_bits())));
+                        }
+                    } else if let Some(b) = guard(|| BiquadRepr::<f32, i32>::Filter(fr).build::<f32>(p32, bs32, ys32)) {
+                        out.emit(&format!("f_filterrepr32 32 30 {}", args), Some(format!("{} {} {} {}", list(b.ba()), b.u(), b.min(), b.max())));
+                    }
+                }
+                continue;
+            }
             let mut fr = FilterRepr::<f64>::default();
             set_leaf(&mut fr, "/typ", typs[ti]);
             set_leaf(&mut fr, "/frequency", freq);
@@ -1842,7 +1869,25 @@ fn fam_repr(rng: &mut Rng, n: usize, out: &mut Out) {
             *pid.max = mx;
             let args = format!("{} {} {} {} {} {} {} {} {}", period.to_bits(), order as usize, list(&gains.map(|v| v.to_bits())), list(&limits.map(|v| v.to_bits())),
                 b_scale.to_bits(), y_scale.to_bits(), setpoint.to_bits(), mn.to_bits(), mx.to_bits());
-            if i % 8 == 2 {
+            if i % 16 == 10 {
+                // the all-binary32 representation `Pid<f32>` (op f_pidreprT32)
+                let mut p32 = Pid::<f32>::default();
+                *p32.order = order;
+                for j in 0..5 { *p32.gain.value[j] = gains[j] as f32; *p32.limit.value[j] = limits[j] as f32; }
+                *p32.setpoint = setpoint as f32;
+                *p32.min = mn as f32;
+                *p32.max = mx as f32;
+                let a32 = format!("{} {} {} {} {} {} {} {} {}", (period as f32).to_bits(), order as usize, list(&gains.map(|v| (v as f32).to_bits())), list(&limits.map(|v| (v as f32).to_bits())),
+                    (b_scale as f32).to_bits(), (y_scale as f32).to_bits(), (setpoint as f32).to_bits(), (mn as f32).to_bits(), (mx as f32).to_bits());
+                if rng.chance(1, 2) || crate::MODE != 'C' {
+                    let b: Biquad<f32> = p32.build::<f32, f32>(period as f32, b_scale as f32, y_scale as f32);
+                    if b.ba().iter().all(|v| v.is_finite()) && b.u().is_finite() {
+                        out.emit(&format!("f_pidreprT32 0 0 {}", a32), Some(format!("{} {} {} {}", list(&b.ba().map(|v| v.to_bits())), b.u().to_bits(), b.min().to_bits(), b.max().to_bits())));
+                    }
+                } else if let Some(b) = guard(|| BiquadRepr::<f32, i32>::Pid(p32.clone()).build::<f32>(period as f32, b_scale as f32, y_scale as f32)) {
+                    out.emit(&format!("f_pidreprT32 32 30 {}", a32), Some(format!("{} {} {} {}", list(b.ba()), b.u(), b.min(), b.max())));
+                }
+            } else if i % 8 == 2 {
                 // builder intermediate type I = f32 (op f_pidrepr32)
                 if rng.chance(1, 2) || crate::MODE != 'C' {
                     let b: Biquad<f64> = if rng.chance(1, 2) { BiquadRepr::<f64, f64>::Pid(pid.clone()).build::<f32>(period, b_scale, y_scale) } else { pid.build::<f64, f32>(period, b_scale, y_scale) };
